@@ -624,11 +624,9 @@ theorem handleBlock1_pass (req : Request) (M : Nat) (st : BlockState) (size : Na
 
 theorem keyOf_eq_iff (r₁ r₂ : Request) :
     keyOf r₁ = keyOf r₂ ↔
-      (MessageClass.toU8 (.Request r₁.getMethod) = MessageClass.toU8 (.Request r₂.getMethod) ∧
-       (match r₁.getPathAsVec with | .ok l => l | _ => []) =
-         (match r₂.getPathAsVec with | .ok l => l | _ => []) ∧
+      (MessageClass.toU8 r₁.message.header.code = MessageClass.toU8 r₂.message.header.code ∧
+       (r₁.message.getOption Request.uriPath).getD [] = (r₂.message.getOption Request.uriPath).getD [] ∧
        r₁.source = r₂.source) := by
   simp only [keyOf, Key.mk.injEq]
-  exact Iff.rfl
 
 end CoapLite.Block
